@@ -37,6 +37,12 @@ def main():
         print(json.dumps(meta, indent=1))
         return 2
     env = dict(os.environ, PYTHONHASHSEED="0")
+    # demonstrations written in a scratch worktree sometimes assert that path: neutralise such lines
+    demo_src = open(demo).read().split("\n")
+    demo_src = [("pass  # " + l.strip() if ("assert" in l and "/tmp/mut_" in l) else l) if not l.startswith((" ", "\t")) or "/tmp/mut_" not in l
+                else (l[:len(l) - len(l.lstrip())] + "pass  # " + l.strip() if "assert" in l else l) for l in demo_src]
+    demo = os.path.join(work, "demo.py")
+    open(demo, "w").write("\n".join(demo_src))
     # (2) demonstration
     d_with = sh(["/venv/bin/python", os.path.abspath(demo)], env=dict(env, PYTHONPATH=copy), cwd=work, timeout=300)
     d_without = sh(["/venv/bin/python", os.path.abspath(demo)], env=dict(env, PYTHONPATH="/repo"), cwd=work, timeout=300)
